@@ -7,6 +7,7 @@ use anyhow::{anyhow, bail, Context, Result};
 use std::fmt::Write as _;
 use wasmparser::{Operator, Parser, Payload, TypeRef, ValType};
 
+#[derive(Clone)]
 pub struct ApiImport { pub name: String, pub params: Vec<ValType>, pub results: Vec<ValType> }
 
 /// The API as the public WAT describes it.
